@@ -331,11 +331,218 @@ def c_case(case, obs, broken):
             return None
     if not isinstance(ob["state"], int) or not isinstance(os_["state"], int):
         return None
-    return ("{| k_oneway := %s; k_submit_broken := %s; k_s0 := %s; k_calls := %s; k_b_state := %s; k_b_log := %s; "
+    return ("One {| k_oneway := %s; k_submit_broken := %s; k_s0 := %s; k_calls := %s; k_b_state := %s; k_b_log := %s; "
             "k_b_view := %s; k_q_state := %s; k_q_log := %s; k_q_outs := %s |}") % (
         cbool(case["oneway"]), cbool(broken), cZ(case["s0"]),
         clist([c_call(n, (0 if n in ("get", "__init__") else a)) for n, a, _ in case["calls"]]),
         cZ(ob["state"]), c_log(ob["log"]), view, cZ(os_["state"]), c_log(os_["log"]), clist(qouts))
+
+
+# ---------------------------------------------------------------- histories of a re-used BatchProxy
+# case: {"kind": "hist", "ser", "s0", "events": [["q", name, arg, kw] | ["s", "call"|"invoke"|"oneway"] | ["i", k, n]]}
+# ["i", k, n]: pull up to n items (n = -1: all) from the generator returned by the k-th submission of the history
+ALL = 999
+
+
+def queue_call(e, b, name, arg, kw):
+    args, kwargs = call_args(name, arg, kw)
+    if name.startswith("__"):
+        e.client._BatchedRemoteMethod(b._BatchProxy__calls, name)(*args, **kwargs)
+    else:
+        getattr(b, name)(*args, **kwargs)
+
+
+def run_history(case):
+    """one BatchProxy re-used for the whole history, on object A"""
+    e = env()
+    a = e.a
+    a.total, a.log = case["s0"], []
+    b = e.api.BatchProxy(e.pa[case["ser"]])
+    gens, obs = [], []
+    for ev in case["events"]:
+        if ev[0] == "q":
+            queue_call(e, b, ev[1], ev[2], ev[3])
+            obs.append(["q"])
+        elif ev[0] == "s":
+            before = len(a.log)
+            try:
+                if ev[1] == "invoke":
+                    g = b._pyroInvoke("ignored", (), {})
+                elif ev[1] == "oneway":
+                    g = b(oneway=True)
+                else:
+                    g = b()
+            except Exception as x:
+                kind, g = ["raised", exc_canon(x)], None
+            else:
+                kind = ["nothing"] if g is None else ["gen"]
+            gens.append(g)
+            obs.append(["s", a.total, [list(t) for t in a.log[before:]], kind])
+        else:
+            k, n = ev[1], ev[2]
+            g = gens[k] if 0 <= k < len(gens) else None
+            outs = []
+            if g is not None:
+                it = iter(g)
+                while n < 0 or len(outs) < n:
+                    try:
+                        outs.append(["ok", jsonable(next(it))])
+                    except StopIteration:
+                        break
+                    except Exception as x:
+                        outs.append(["exc", exc_canon(x)])
+                        break
+                    if len(outs) > 200:
+                        break
+            obs.append(["i", outs])
+    return {"trace": obs, "final": a.total}
+
+
+def probe_keep():
+    """quirk probe: does the queue of a BatchProxy survive a submission that raised?"""
+    case = {"kind": "hist", "ser": "serpent", "s0": 0,
+            "events": [["q", "add", 1, False], ["q", "hidden", 1, False], ["s", "call"], ["q", "add", 5, False], ["s", "call"]]}
+    t = run_history(case)["trace"]
+    return t[2][3][0] == "raised" and t[4][2][:1] == [["add", 1]]
+
+
+def oracle_history(case, obs):
+    """each submission = exactly the calls queued since the previous submission, made one by one on an identical
+    object in the state the earlier submissions left; pulled results = the first items of that sequential run"""
+    pending, subs, bad = [], [], []
+    state = case["s0"]
+    failed_submit_before = False
+    nsub = 0
+    for ev, ob in zip(case["events"], obs["trace"]):
+        if ev[0] == "q":
+            pending.append([ev[1], ev[2], ev[3]])
+            continue
+        if ev[0] == "s":
+            oneway = ev[1] == "oneway"
+            one = {"ser": case["ser"], "oneway": oneway, "s0": state, "calls": pending}
+            ref = run_seq(one)
+            refused = bool(ref["outs"]) and ref["outs"][-1][0] == "exc" and len(ref["log"]) < len(ref["outs"])
+            kind = ob[3]
+            found = []
+            if ob[2] != ref["log"]:
+                found.append(("reuse-batch-executed-differs", "submission %d of a re-used BatchProxy executed %r; the calls queued since the previous submission, made one by one, execute %r" % (
+                    nsub, ob[2][:8], ref["log"][:8])))
+            elif ob[1] != ref["state"]:
+                found.append(("batch-state-differs", "after submission %d the object's total is %r, after the same calls one by one %r" % (nsub, ob[1], ref["state"])))
+            if oneway:
+                if kind[0] != "nothing":
+                    found.append(("oneway-batch-returned" if kind[0] == "gen" else "batch-submit-spurious-error", "oneway submission %d did not return nothing: %r" % (nsub, kind)))
+            elif refused:
+                if kind[0] != "raised" or kind[1] != ref["outs"][-1][1]:
+                    found.append(("batch-submit-spurious-error" if kind[0] == "raised" else "batch-failure-not-reported",
+                                  "submission %d: the first failing call is refused with %r, the submission gave %r" % (nsub, ref["outs"][-1][1], kind)))
+            elif kind[0] != "gen":
+                found.append(("batch-submit-spurious-error" if kind[0] == "raised" else "batch-returned-nothing",
+                              "submission %d should return its results, it gave %r" % (nsub, kind)))
+            if found and failed_submit_before:
+                # everything after a submission that raised is explained by the queue having survived it
+                return [("reuse-after-failed-submit", "a BatchProxy whose previous submission raised was re-used: " + found[0][1])]
+            bad.extend(found)
+            if found:
+                return bad      # later events are consequences
+            subs.append([] if (oneway or refused) else ref["outs"])
+            if kind[0] == "raised":
+                failed_submit_before = True
+            state = ob[1]
+            pending = []
+            nsub += 1
+            continue
+        k, n = ev[1], ev[2]
+        exp = subs[k] if 0 <= k < len(subs) else []
+        exp = exp if n < 0 else exp[:n]
+        if ob[1] != exp:
+            sig = ("reuse-results-differ", "pulling %s results of submission %d gave %r, the sequential run gives %r" % ("all" if n < 0 else n, k, ob[1][:6], exp[:6]))
+            if failed_submit_before:
+                return [("reuse-after-failed-submit", "a BatchProxy whose previous submission raised was re-used: " + sig[1])]
+            return bad + [sig]
+    return bad
+
+
+def c_event(ev):
+    if ev[0] == "q":
+        return "EvQueue %s" % c_call(ev[1], 0 if ev[1] in ("get", "__init__") else ev[2])
+    if ev[0] == "s":
+        return "EvSubmit %s" % cbool(ev[1] == "oneway")
+    return "EvIterate %d%%nat %d%%nat" % (ev[1], ALL if ev[2] < 0 else ev[2])
+
+
+def c_hist(case, obs, keep):
+    items = []
+    for ob in obs["trace"]:
+        if ob[0] == "q":
+            items.append("OQ")
+        elif ob[0] == "s":
+            if not isinstance(ob[1], int) or any(n not in METH or not isinstance(a, int) for n, a in ob[2]):
+                return None
+            k = ob[3]
+            kind = "KNothing" if k[0] == "nothing" else ("KGen" if k[0] == "gen" else "(KRaised %s)" % c_exn(k[1]))
+            items.append("OS %s %s %s" % (cZ(ob[1]), c_log(ob[2]), kind))
+        else:
+            outs = [c_out(o) for o in ob[1]]
+            if any(o is None for o in outs):
+                return None
+            items.append("OI %s" % clist(outs))
+    if not isinstance(obs["final"], int):
+        return None
+    return "Hist {| h_keep := %s; h_s0 := %s; h_events := %s; h_obs := %s; h_final := %s |}" % (
+        cbool(keep), cZ(case["s0"]), clist([c_event(e) for e in case["events"]]), clist(items), cZ(obs["final"]))
+
+
+def gen_history(rng, thorough):
+    nsub = rng.choice([2, 2, 3, 3, 4]) if not thorough else rng.choice([2, 3, 3, 4, 5, 6])
+    pfail = rng.choice([0.0, 0.0, 0.05, 0.15, 0.3])
+    events, plans = [], []          # plans: (submission index, when, n)
+    later = []
+    for j in range(nsub):
+        for _ in range(rng.choice([0, 1, 1, 2, 2, 3, 4])):
+            c = gen_call(rng, pfail)
+            events.append(["q", c[0], c[1], c[2]])
+            # a late pull may land between two queued calls
+            if later and rng.random() < 0.3:
+                events.append(later.pop(rng.randrange(len(later))))
+        mode = rng.choice(["call", "call", "call", "invoke", "oneway"])
+        events.append(["s", mode])
+        if mode != "oneway" or rng.random() < 0.2:
+            n = rng.choice([-1, -1, -1, 1, 2, 0])
+            when = rng.choice(["now", "now", "late", "late", "never"])
+            if when == "now":
+                events.append(["i", j, n])
+            elif when == "late":
+                later.append(["i", j, n])
+        if later and rng.random() < 0.4:
+            events.append(later.pop(rng.randrange(len(later))))
+    for ev in later:
+        if rng.random() < 0.7:
+            events.append(ev)
+    return {"kind": "hist", "ser": rng.choice(SERIALIZERS), "s0": rng.choice([0, 0, 1, 5, -3, rng.randint(-1000, 1000)]), "events": events}
+
+
+def gen_histories(ctx):
+    return [gen_history(ctx.rng, not ctx.quick) for _ in range(ctx.n(900, 12000))]
+
+
+def targeted_histories():
+    out = []
+    Q = lambda n, a=1: ["q", n, a, False]
+    for ser in SERIALIZERS:
+        # results never pulled, then a second batch
+        out.append({"kind": "hist", "ser": ser, "s0": 0, "events": [Q("add", 1), Q("add", 2), ["s", "call"], Q("add", 10), ["s", "call"], ["i", 1, -1]]})
+        # results pulled only after new calls were queued
+        out.append({"kind": "hist", "ser": ser, "s0": 0, "events": [Q("add", 1), Q("add", 2), ["s", "call"], Q("add", 10), Q("boom", 1), Q("add", 100),
+                                                                    ["i", 0, -1], ["s", "call"], ["i", 1, -1]]})
+        # partially pulled, via the adapter, oneway in between
+        out.append({"kind": "hist", "ser": ser, "s0": 3, "events": [Q("add", 1), Q("mul", 2), ["s", "invoke"], ["i", 0, 1], Q("sub", 100), Q("add", 1), ["s", "oneway"],
+                                                                    Q("get", 0), ["s", "call"], ["i", 2, -1]]})
+        # a submission that raises, then re-use
+        out.append({"kind": "hist", "ser": ser, "s0": 0, "events": [Q("add", 1), Q("hidden", 1), ["s", "call"], Q("add", 5), ["s", "call"], ["i", 1, -1]]})
+        # empty submissions
+        out.append({"kind": "hist", "ser": ser, "s0": 0, "events": [["s", "call"], ["i", 0, -1], ["s", "oneway"], Q("add", 1), ["s", "call"], ["s", "call"], ["i", 2, -1], ["i", 3, -1]]})
+    return out
 
 
 # ---------------------------------------------------------------- generator
@@ -415,7 +622,28 @@ def first_failure(obs):
 
 def execute(ctx, cases, model_ok, res, broken_sers):
     lits, kept = [], []
+    keep = res.quirks.get("queue_survives_failed_submit", False)
     for case in cases:
+        if case.get("kind") == "hist":
+            obs = run_history(case)
+            nsub = sum(1 for e in case["events"] if e[0] == "s")
+            res.seen(case, nontrivial=nsub >= 2)
+            res.count("ser:" + case["ser"])
+            res.count("history_submissions_%d" % min(nsub, 6))
+            for e in case["events"]:
+                if e[0] == "s":
+                    res.count("history_submit:" + e[1])
+                elif e[0] == "i":
+                    res.count("history_pull:" + ("all" if e[2] < 0 else "none" if e[2] == 0 else "partial"))
+            for sig, what in oracle_history(case, obs):
+                res.violations.append({"signature": sig, "what": what, "case": case})
+            lit = c_hist(case, obs, keep)
+            if lit is None:
+                res.mismatches.append({"component": "C11", "case": case, "impl": obs, "model": "value outside the model's vocabulary"})
+                continue
+            lits.append(lit)
+            kept.append((case, obs))
+            continue
         obs = run_impl(case)
         ff = first_failure(obs)
         res.seen(case, nontrivial=len(case["calls"]) >= 2)
@@ -449,6 +677,10 @@ def probe_all(res):
         res.quirks["batch_submit_fails:" + ser] = b
         if b:
             broken.add(ser)
+    try:
+        res.quirks["queue_survives_failed_submit"] = probe_keep()
+    except Exception:
+        res.quirks["queue_survives_failed_submit"] = False
     return broken
 
 
@@ -456,7 +688,7 @@ def run(ctx, model_ok=True):
     res = vlib.Result()
     try:
         broken_sers = probe_all(res)
-        cases = vlib.load_corpus(PROP) + targeted() + gen_cases(ctx)
+        cases = vlib.load_corpus(PROP) + targeted() + targeted_histories() + gen_cases(ctx) + gen_histories(ctx)
         execute(ctx, cases, model_ok, res, broken_sers)
     finally:
         close_env()
@@ -464,7 +696,11 @@ def run(ctx, model_ok=True):
                 "sub (ValueError), div (ZeroDivisionError), boom (mutates then raises), unexposed, private, reserved-dunder, missing and "
                 "dotted names; arguments from a table of small/large/negative integers, positional or keyword; random initial total; "
                 "normal (BatchProxy() or its _pyroInvoke adapter) and oneway mode; serpent/json/marshal/msgpack; each batch is also run "
-                "one call at a time on a second identical object. non-trivial = at least two calls; distinct = distinct case hash")
+                "one call at a time on a second identical object. Plus histories of ONE re-used BatchProxy: 2..4 (thorough ..6) submissions "
+                "(normal / adapter / oneway), 0..4 calls queued before each, the result generator of each submission pulled immediately, late "
+                "(after further calls were queued or after later submissions), partially (0, 1, 2 items) or never; every submission is compared "
+                "with the calls queued since the previous submission made one by one from the object state reached so far. "
+                "non-trivial = at least two calls / two submissions; distinct = distinct case hash")
     res.samples = cases[-3:] + cases[:2]
     return res
 
@@ -472,11 +708,14 @@ def run(ctx, model_ok=True):
 def search(ctx, broken):
     res = vlib.Result()
     try:
-        cases = [b["case"] for b in broken if b.get("case")] + targeted() + gen_cases(ctx)
+        cases = [b["case"] for b in broken if b.get("case")] + targeted() + targeted_histories() + gen_cases(ctx) + gen_histories(ctx)
         for case in cases:
-            obs = run_impl(case)
             res.seen(case)
-            for sig, what in oracle(case, obs):
+            if case.get("kind") == "hist":
+                found = oracle_history(case, run_history(case))
+            else:
+                found = oracle(case, run_impl(case))
+            for sig, what in found:
                 res.violations.append({"signature": sig, "what": what, "case": case})
     finally:
         close_env()
@@ -485,6 +724,19 @@ def search(ctx, broken):
 
 def replay(ctx, case):
     try:
+        if case.get("kind") == "hist":
+            obs = run_history(case)
+            bad = oracle_history(case, obs)
+            if bad:
+                return True, {"oracle": bad, "impl": obs}
+            res = vlib.Result()
+            broken_sers = probe_all(res)
+            execute(ctx, [case], True, res, broken_sers)
+            if res.mismatches:
+                lit = c_hist(case, obs, res.quirks.get("queue_survives_failed_submit", False))
+                model = vlib.eval_model(ctx, IMPORTS, "match %s with Hist c => model_history c | One _ => ([], 0%%Z) end" % lit) if lit else "unprintable"
+                return True, {"mismatch": True, "impl": obs, "model": model[-1500:]}
+            return False, {"impl": obs}
         obs = run_impl(case)
         bad = oracle(case, obs)
         if bad:
@@ -494,7 +746,7 @@ def replay(ctx, case):
         execute(ctx, [case], True, res, broken_sers)
         if res.mismatches:
             lit = c_case(case, obs, case["ser"] in broken_sers)
-            model = vlib.eval_model(ctx, IMPORTS, "let c := %s in (model_batch c, model_seq c)" % lit) if lit else "unprintable"
+            model = vlib.eval_model(ctx, IMPORTS, "match %s with One c => Some (model_batch c, model_seq c) | Hist _ => None end" % lit) if lit else "unprintable"
             return True, {"mismatch": True, "impl": obs, "model": model[-1500:]}
         return False, {"impl": obs}
     finally:
